@@ -88,18 +88,19 @@ def positions_witness(env, td, dt):
 
 def h_positions(env):
     """solver-chosen span and instant (LIA) + boundary constants, placed in every field position (witness level)"""
-    i = env.choose("td", len(BOUNDARY_TD) + 1)
-    us = env.zint("td_us", -DUR_MAX_US, DUR_MAX_US) if i == len(BOUNDARY_TD) else env.zint("td_us", BOUNDARY_TD[i], BOUNDARY_TD[i])
-    j = env.choose("ts", len(BOUNDARY_TS) + 1)
-    if j == len(BOUNDARY_TS):
+    n = max(len(BOUNDARY_TD), len(BOUNDARY_TS))
+    k = env.choose("case", n + 1)  # boundary span i paired with boundary instant i (cycling); the last case is solver-chosen
+    if k == n:
+        us = env.zint("td_us", -DUR_MAX_US, DUR_MAX_US)
         off = env.zint("offset_min", -1439, 1439)
         lus = env.zint("local_us", 0, MAX_US)
-        inst = lus - off * 60 * US_PER_SEC
-        env.assume(sym.sym_and(inst >= 0, inst <= MAX_US))
     else:
-        lus, off = env.zint("local_us", BOUNDARY_TS[j][0], BOUNDARY_TS[j][0]), env.zint("offset_min", BOUNDARY_TS[j][1], BOUNDARY_TS[j][1])
-        inst = lus - off * 60 * US_PER_SEC
-        env.assume(sym.sym_and(inst >= 0, inst <= MAX_US))
+        tdv = BOUNDARY_TD[k % len(BOUNDARY_TD)]
+        tsv = BOUNDARY_TS[k % len(BOUNDARY_TS)]
+        us = env.zint("td_us", tdv, tdv)
+        lus, off = env.zint("local_us", tsv[0], tsv[0]), env.zint("offset_min", tsv[1], tsv[1])
+    inst = lus - off * 60 * US_PER_SEC
+    env.assume(sym.sym_and(inst >= 0, inst <= MAX_US))
     env.check("reached", True)
     if not env.sym:
         positions_witness(env, mk_timedelta(env, us), mk_datetime(env, lus, off))
@@ -223,7 +224,8 @@ def h_timestamp(env):
         env.check("witness:timestamp-json-round-trip", back.t == dt, repr(m.to_dict()))
 
 
-BOUNDARY_TD = [0, 1, -1, 999999, 10**6, -(10**6), -1500000, 1500000, 2**53, 2**53 + 1, -(2**53) - 1, 69089390592999996, DUR_MAX_US, -DUR_MAX_US, DUR_MAX_US - 1, 1000, 123000, -123456]
+BOUNDARY_TD = [0, 1, -1, 999999, 10**6, -(10**6), -1500000, 1500000, 2**53, 2**53 + 1, -(2**53) - 1, 69089390592999996, DUR_MAX_US, -DUR_MAX_US, DUR_MAX_US - 1, 1000, 123000, -123456,
+               7, 50, 5000, -5000, 90000, 1001000, 10**6 + 1, -999999, 3600 * 10**6, 86400 * 10**6 + 10]
 
 
 def h_duration_boundaries(env):
@@ -237,6 +239,8 @@ BOUNDARY_TS = [  # (local clock us since 0001-01-01, offset minutes)
     (EPOCH_US, 0), (EPOCH_US - 1, 0), (EPOCH_US + 1, 0), (EPOCH_US - 500000, 0), (EPOCH_US + 999999, 0), (EPOCH_US - 1000000, 0),
     (0, 0), (MAX_US, 0), (EPOCH_US + 1500000, 90), (EPOCH_US, -720), (EPOCH_US + 2**53, 0), (14 * 60 * 60 * US_PER_SEC, 14 * 60), (MAX_US - 1, -1439),
     (EPOCH_US + 1577836800 * US_PER_SEC + 123000, 330), (EPOCH_US + 1577836800 * US_PER_SEC + 123456, -210),
+    (EPOCH_US + 7, 0), (EPOCH_US + 50, 0), (EPOCH_US + 5000, 0), (EPOCH_US + 90000, 0), (EPOCH_US + 1001000, 0), (EPOCH_US - 5000, 0), (EPOCH_US - 999950, 0),
+    (EPOCH_US + 951782400 * US_PER_SEC, 0), (EPOCH_US + 4107542400 * US_PER_SEC + 1, 60),
 ]  # fmt: skip
 
 
